@@ -45,6 +45,10 @@ def apply_event(rig, ev):
         rig.server_msg(M.PotentialParents.Response([PotentialParent(n, f'10.9.0.{NID[n]}', 2234) for n in ev[1]]))
     elif k == 'PI':
         rig.peer_init(ev[1], ev[2], bool(ev[3]), hold=(len(ev) > 4 and ev[4] == 'hold'))
+    elif k == 'KH':          # closing this connection will take time (harness-only)
+        rig.slow_close(ev[1], True)
+    elif k == 'KR':          # ... and now completes
+        rig.finish_close(ev[1])
     elif k == 'PF':          # the outgoing connection attempts to this proposed parent fail (harness-only: no model event)
         rig.fail_connects(f'10.9.0.{NID[ev[1]]}')
     elif k == 'CR':          # the slow peer on this connection reads again (harness-only: no model event)
@@ -83,6 +87,7 @@ def observe(rig, prev_closed):
         'conn': {c: m for c, m in ((c, rig.conn_new(c)) for c in sorted(rig.eps)) if m},
         'closed': [c for c in closed if c not in prev_closed],
         'held': rig.held, 'blocked': rig.blocked, 'cheld': rig.held_children(),
+        'kheld': rig.closing_pending(),
     }
     return o, closed
 
@@ -407,7 +412,7 @@ def monitor(events, obs):
             add('parent-replaced-while-connected', 'another connection became the parent although the parent was not lost',
                 {'step': i, 'old': prev['parent'], 'new': o['parent'], 'event': ev})
         # --- docs/source/DESIGN.rst: choosing a parent disconnects every other distributed connection except the children
-        if o['parent'] is not None and prev['parent'] is None and not o['held']:
+        if o['parent'] is not None and prev['parent'] is None and not o['held'] and not o.get('kheld'):
             extra = [c for c in o['live'] if c != o['parent'] and c not in ch]
             if extra:
                 add('candidates-left-connected-after-parent-chosen',
@@ -439,7 +444,7 @@ def monitor(events, obs):
         elif srv_told_now:
             f11_pending = False
         # --- truthfulness (at quiescent points: nothing suspended)
-        if o['session'] and had_session and not o['held']:
+        if o['session'] and had_session and not o['held'] and not o.get('kheld'):
             want = (pos[0], pos[1], o['parent'] is None)
             got = (told_srv['L'], told_srv['R'], told_srv['S'])
             if got != want:
@@ -491,7 +496,7 @@ def ev_coq(ev):
         return f'OwnStats {ev[1]}%Z'
     if k == 'RD':
         return 'ResetDistributed'
-    if k in ('CR', 'PF'):
+    if k in ('CR', 'PF', 'KH', 'KR'):
         return 'PotentialParents []'      # no-op of the model: nothing may change when a slow peer resumes
     if k == 'H':
         return 'Hold'
@@ -571,6 +576,28 @@ WITNESS = {
 }
 
 
+def gen_slowclose(rng):
+    lvl, root = rng.choice([1, 3, 7]), rng.choice(['root1', 'root2'])
+    evs = [['SI']]
+    nk = rng.choice([0, 1, 2])
+    evs += [['PI', 10 + k, rng.choice(PEER_NAMES), False] for k in range(nk)]
+    evs += [['PI', 1, 'alice', True], ['PI', 2, 'bob', True], ['KH', 2]]
+    evs += [['BL', 1, lvl], ['BR', 1, root]] if rng.random() < 0.5 else [['BR', 1, root], ['BL', 1, lvl]]
+    # the parent's own reader is inside the suspended handler: only other sources can deliver events now
+    for _ in range(rng.choice([1, 1, 2])):
+        r = rng.random()
+        if r < 0.5:
+            evs.append(['RD'])
+        elif r < 0.7:
+            evs.append(['PI', 20 + len(evs), rng.choice(PEER_NAMES), False])
+        elif r < 0.85:
+            evs.append(['OS', rng.choice([0, 5120, 51200])])
+        else:
+            evs.append(['CC', 10] if nk else ['PP', ['carol']])
+    evs.append(['KR', 2])
+    return evs
+
+
 def violations(events):
     try:
         return monitor(events, run_impl(events))
@@ -596,7 +623,7 @@ def valid(events):
             if e[1] in known:
                 return False
             known.add(e[1])
-        elif e[0] in ('BL', 'BR', 'CC', 'CR'):
+        elif e[0] in ('BL', 'BR', 'CC', 'CR', 'KH', 'KR'):
             if e[1] not in known or e[1] in dead:
                 return False
             if e[0] == 'CC':
@@ -656,6 +683,14 @@ def run(run: Run):
         run.case({'l3': evs}, kind='l3-slow-child')
         for k, what, detail in violations(evs):
             run.add_finding(Finding(k, what, {'events': evs, 'detail': detail}, observed=detail.get('told'), expected=detail.get('position')))
+
+    # L3 only: choosing a parent while closing another candidate takes time (_set_parent suspended in the disconnects);
+    # meanwhile the server resets the tree / children connect / stats arrive.  Outside the model (its closes are atomic).
+    for k in range(6 if run.tier == 'quick' else 40):
+        evs = gen_slowclose(run.rng)
+        run.case({'l3': evs}, kind='l3-slow-close')
+        for key, what, detail in violations(evs):
+            run.add_finding(Finding(key, what, {'events': shrink_events(evs, key), 'detail': detail}, observed=detail.get('told'), expected=detail.get('position')))
 
     # float agreement of the child limit on a fixed grid (measured, never a verdict by itself)
     dis = sum(1 for r in range(1, 120) for s in range(0, 60000, 512) if not float_ok(s, r))
